@@ -28,6 +28,7 @@ func init() {
 			{ID: "C16.5", Doc: "announce_peer arguments", Floor: 6, Run: c16r5},
 			{ID: "C16.6", Doc: "the lookup under the announce can stall and stop: every in-flight slot taken is given back (shared with C03.4)", Floor: 5, Run: c03r4},
 			{ID: "C16.8", Doc: "a reply cannot inherit another node's id or token from an earlier datagram: fresh decode target per datagram (shared with C07.7)", Floor: 1, Run: c07r7},
+			{ID: "C16.9", Doc: "Close() sets the close event unconditionally and without waiting (the deliveries it releases are what the traversal's Stopped() waits for)", Floor: 1, Run: c16CloseNeverWaits},
 			{ID: "C16.7", Doc: "replies are matched to queries by full address and transaction id, so the token kept for a node is that node's (shared with C07.1)", Floor: 6, Run: c07r1},
 		},
 	})
@@ -637,6 +638,29 @@ func (w *World) isOwnQueryCtxDone(ch *Term, fn *ssa.Function) bool {
 		}
 	}
 	return false
+}
+
+// c16CloseNeverWaits: the functions that set the announce's close event do not wait for anything
+// before setting it - in particular not for Stopped(), which itself waits for deliveries that only
+// the close event releases.
+func c16CloseNeverWaits(w *World, rr *RuleRun) {
+	closedF := w.P.Field("", "Announce", "closed")
+	n := 0
+	eachInstr(w.P.LibFuncs, func(fn *ssa.Function, ins ssa.Instruction) {
+		c := callInstrCommon(ins)
+		if c == nil {
+			return
+		}
+		o := calleeObj(c)
+		if o == nil || o.Name() != "Set" || recvNamed(o) != "SetOnce" || len(c.Args) == 0 || fieldOfAddr(c.Args[0]) != closedF {
+			return
+		}
+		n++
+		rr.At(w, ins, "the close event is set without first waiting for anything", !blockingBefore(fn, ins), "a channel wait can run before closed.Set(): Close would wait for deliveries that only the close event releases")
+	})
+	if n == 0 {
+		rr.Oblige("Announce.closed", "the close event is set somewhere", "-", false, "")
+	}
 }
 
 // isCloseEventDone: ch is Done() of a chansync.SetOnce field every Set() of which sits in a
